@@ -1,0 +1,38 @@
+//go:build verif
+// +build verif
+
+package main
+
+import (
+	"net/http"
+	neturl "net/url"
+	"os"
+	"strings"
+)
+
+// verifRedirect sends the generator's upstream fetches to the server named by
+// BIP39_VERIF_WORDLIST_URL (a base URL ending in "/"). Verification builds only.
+type verifRedirect struct {
+	base string
+	next http.RoundTripper
+}
+
+func (v verifRedirect) RoundTrip(req *http.Request) (*http.Response, error) {
+	if full := req.URL.String(); strings.HasPrefix(full, url) {
+		u, err := neturl.Parse(v.base + strings.TrimPrefix(full, url))
+		if err != nil {
+			return nil, err
+		}
+		r2 := req.Clone(req.Context())
+		r2.URL = u
+		r2.Host = u.Host
+		req = r2
+	}
+	return v.next.RoundTrip(req)
+}
+
+func init() {
+	if base := os.Getenv("BIP39_VERIF_WORDLIST_URL"); base != "" {
+		http.DefaultTransport = verifRedirect{base: base, next: http.DefaultTransport}
+	}
+}
